@@ -80,10 +80,13 @@ def scramble(obj):
 
 def build_system(sd, types=None):
     n = sd['n']; types = list(types) if types is not None else TYPES[:n]
+    kT = sd['kT']
+    if sd.get('kT_type') and float(kT) == int(kT):
+        kT = int(kT) if sd['kT_type'] == 'int' else getattr(np, sd['kT_type'])(int(kT))          # a whole-number temperature given as a Python / NumPy integer
     if sd.get('kT_assign'):
-        s = pyPRISM.System(types, kT=sd['kT_assign']); s.kT = sd['kT']          # the documented attribute is (re-)assigned after construction (temperature sweeps)
+        s = pyPRISM.System(types, kT=sd['kT_assign']); s.kT = kT          # the documented attribute is (re-)assigned after construction (temperature sweeps)
     else:
-        s = pyPRISM.System(types, kT=sd['kT'])
+        s = pyPRISM.System(types, kT=kT)
     if sd.get('dom') is not None:
         if sd.get('dom_from_dk'):
             s.domain = pyPRISM.Domain(length=sd['dom'][0], dk=math.pi / (sd['dom'][1] * sd['dom'][0]))      # the same grid, configured through dk
@@ -312,6 +315,8 @@ def gen_system(rng, maxn=3, maxL=32, soft_ok=True, distinct=True):
     for key, pr in sd['pairs'].items():
         if pr['om'][0] == 'arr' and rng.random() < 0.35:
             pr['om'] = ['arr32', 0] + [float(np.float32(v)) for v in pr['om'][2:]]          # single-precision tables (PRISM.omega must still be double)
+    if rng.random() < 0.12:
+        sd['kT'] = float(rng.choice([2, 3, 1])); sd['kT_type'] = rng.choice(['int', 'int64', 'int32'])
     if rng.random() < 0.3: sd['kT_assign'] = rng.choice([1.0, 0.5, 3.0, sd['kT'] * 2])
     if rng.random() < 0.25: sd['dom_from_dk'] = True          # the same grid configured through dk
     if n >= 2 and rng.random() < 0.4:
